@@ -229,11 +229,14 @@ class FourierSeries:
             The real-valued time series.
         """
         if ifftn is None:
-            ifftn = kernels.nb_irfft
-        if not callable(ifftn):
+            # the transform length is recorded in the header: irfft's default,
+            # 2 * (nbins - 1), is one sample short for odd lengths
+            tim_ar = kernels.nb_irfft(self.data, self.header.nsamples)
+        elif callable(ifftn):
+            tim_ar = ifftn(self.data)
+        else:
             msg = f"Input ifftn is not callable: {ifftn}"
             raise TypeError(msg)
-        tim_ar = ifftn(self.data)
         return timeseries.TimeSeries(tim_ar, self.header.new_header())
 
     def form_spec(self, *, interpolate: bool = False) -> PowerSpectrum:
